@@ -880,9 +880,9 @@ def run(ctx):
             total += 1
     ctx.extra["exhaustive_interleavings"] = total
     # sampled
-    rnd = [break_race_case(ctx.rng) for _ in range(ctx.pick(600, 6000))]
+    rnd = [break_race_case(ctx.rng) for _ in range(ctx.pick(400, 6000))]
     ctx.count("directed:break-race", len(rnd))
-    for _ in range(ctx.pick(2500, 40000)):
+    for _ in range(ctx.pick(1800, 40000)):
         case = random_case(ctx.rng)
         if ctx.thorough() and ctx.rng.random() < 0.1:
             case["local"] = True
